@@ -209,7 +209,9 @@ namespace sim
 		int const version = m_out_buffer[0];
 		int const command = m_out_buffer[1];
 		m_command = command;
-		++m_cmd_counts[command - 1];
+		// only count commands there is a counter for (the byte is not
+		// validated yet at this point)
+		if (command >= 1 && command <= 3) ++m_cmd_counts[command - 1];
 
 		if (version != m_version)
 		{
